@@ -34,8 +34,11 @@ RULES = [
     # a defaults rule next to its variable rule (same endpoint): the value that equals the
     # default builds the short URL, every other value -- 0 included -- the long one
     ("d", "/d/<int:n>", "int-default"),
+    # same endpoint as the defaults rule '/L/' below, with MORE arguments: when all of them
+    # are given this rule must be chosen even if the shared one equals the default
+    ("L", "/P/<int:n>/<x>", "str+int"),
 ]
-DEFAULT_RULES = [("d", "/d", {"n": 1}),
+DEFAULT_RULES = [("d", "/d", {"n": 1}), ("L", "/L/", {"n": 1}),
                  # defaults for variables that DO appear in the rule: built from the default's URL form
                  ("e", "/e/<x>/<int:n>", {"x": "a b%?#"}), ("e2", "/E/<path:p>/t", {"p": "u v/w%"})]
 
